@@ -149,13 +149,15 @@ Definition global_status (explore : amap cstat) (p : plan) (h : N) : cstat :=
 (* ------------------------------------------------------------------ gcTargets *)
 Definition load_of (o : opts) (s : sinfo) : Z := if max_head o =? 0 then si_proc s else si_head s.
 
-(* does shard `other` justify deleting copy `tar` of h held by shard s ? (rebalance.go:230-245) *)
-Definition gc_justifies (o : opts) (s other : sinfo) (h : N) (tar : cstat) : bool :=
+(* does shard `other` justify deleting copy `tar` of h held by shard s ? (gcTargets). `front`: other comes before s
+   in the list of in-sync shards - with equal loads the copy of the front shard is kept *)
+Definition gc_justifies (o : opts) (front : bool) (s other : sinfo) (h : N) (tar : cstat) : bool :=
   match afind h (scr_of other) with
   | Some st =>
     (min_wait <=? c_times st)%N &&
     ((tstate_eqb (c_state tar) InTransfer && tstate_eqb (c_state st) Normal) ||
-     (tstate_eqb (c_state tar) (c_state st) && (load_of o other <? load_of o s)))
+     (tstate_eqb (c_state tar) (c_state st) &&
+      ((load_of o other <? load_of o s) || ((load_of o other =? load_of o s) && front))))
   | None => false
   end.
 
@@ -164,7 +166,7 @@ Definition gc_keep (o : opts) (active : list (N * N)) (p : plan) (k : nat) (h : 
   if negb (is_active active h) then false
   else if (c_times tar <? min_wait)%N then true
   else negb (existsb (fun j => negb (Nat.eqb j k) && si_ok (nth_si p j) &&
-                               gc_justifies o (nth_si p k) (nth_si p j) h tar) (indices p)).
+                               gc_justifies o (Nat.ltb j k) (nth_si p k) (nth_si p j) h tar) (indices p)).
 
 Definition gc_shard (o : opts) (active : list (N * N)) (p : plan) (k : nat) : plan :=
   let s := nth_si p k in
@@ -173,6 +175,19 @@ Definition gc_shard (o : opts) (active : list (N * N)) (p : plan) (k : nat) : pl
   else p.
 Definition gc (o : opts) (active : list (N * N)) (p : plan) : plan :=
   fold_left (gc_shard o active) (indices p) p.
+
+(* ------------------------------------------------------------------ recoverOrphanTransfers *)
+(* a copy marked in_transfer that no other in-sync shard holds goes back to normal *)
+Definition orphan (p : plan) (k : nat) (h : N) : bool :=
+  negb (existsb (fun j => negb (Nat.eqb j k) && si_ok (nth_si p j) && amem h (scr_of (nth_si p j))) (indices p)).
+Definition recover_shard (p : plan) (k : nat) (s : sinfo) : sinfo :=
+  if si_ok s
+  then set_scr s (map (fun kv => if tstate_eqb (c_state (snd kv)) InTransfer && orphan p k (fst kv)
+                                 then (fst kv, set_state (snd kv) Normal) else kv) (scr_of s))
+  else s.
+Fixpoint recover_from (p : plan) (k : nat) (l : list sinfo) : list sinfo :=
+  match l with [] => [] | s :: r => recover_shard p k s :: recover_from p (S k) r end.
+Definition recover (p : plan) : plan := recover_from p 0 p.
 
 (* ------------------------------------------------------------------ transferTarget *)
 Definition transfer (p : plan) (from to : nat) (h : N) : plan :=
@@ -467,7 +482,7 @@ Definition clamp (o : opts) (scale : Z) : Z :=
 (* the planning part of the cycle, with every intermediate plan kept (the theorems talk about them) *)
 Record stages := {
   st_p0 : plan;            (* after getShardInfos *)
-  st_p1 : plan;            (* after gcTargets *)
+  st_p1 : plan;            (* after gcTargets and recoverOrphanTransfers *)
   st_p2 : plan;            (* after alleviateShards *)
   st_p3 : plan;            (* after assignNoScrapingTargets *)
   st_p4 : plan;            (* after tryScaleDown (= st_p3 otherwise) *)
@@ -480,7 +495,7 @@ Record stages := {
 Definition run_stages (o : opts) (i : input) (s0 : sst) : stages :=
   let p0 := map (fun sh => fst (get_info sh)) (i_shards i) in
   let gstatus := global_status (i_explore i) p0 in
-  let p1 := gc o (i_active i) p0 in
+  let p1 := recover (gc o (i_active i) p0) in
   let ra := alleviate o p1 s0 in
   let p2 := fst (fst (fst ra)) in
   let need_a := snd (fst (fst ra)) in
